@@ -303,6 +303,27 @@ def run_case(case):
                                 abs(Fraction(float(pres.priors[ppos].dvalue)) - pE) > pE * Fraction(4, 10 ** 15):
                             bad = 'the priors reported by the PREVIOUS fit result changed after this fit: positions %s' % sorted(pres.priors)
                     previous = (res, pos, V, E)
+                    # ... and acts with exactly that value and error, on that parameter: closed-form solution of the straight-line fit
+                    # with one Gaussian prior row, for the uncorrelated and the correlated chi-square (independent points)
+                    if not bad:
+                        A = np.array([[1.0, float(x)] for x in xs])
+                        W = np.diag([1.0 / y.dvalue ** 2 for y in ys])
+                        yv = np.array([y.value for y in ys])
+                        ep = np.zeros(2)
+                        ep[pos] = 1.0
+                        wv, ww = float(V), 1.0 / float(E) ** 2
+                        pexp = np.linalg.solve(A.T @ W @ A + ww * np.outer(ep, ep), A.T @ W @ yv + ww * wv * ep)
+                        for mode, kw in (('uncorrelated', {}), ('correlated', {'correlated_fit': True})):
+                            try:
+                                rf = res if not kw else pe.least_squares(xs, ys, lambda a, x: a[0] + a[1] * x, priors={pos: s}, silent=True, **kw)
+                                got = np.array([q.value for q in rf.fit_parameters])
+                                scale = np.array([max(abs(pexp[i]), float(np.sqrt(np.linalg.inv(A.T @ W @ A + ww * np.outer(ep, ep))[i, i]))) for i in range(2)])
+                                if not np.all(np.abs(got - pexp) <= 2e-5 * scale):
+                                    bad = '%s fit with the prior %r on parameter %d gives %s, the solution with exactly that value and error on that parameter is %s' % (mode, s, pos, got, pexp)
+                            except Exception as ex:
+                                bad = '%s fit with prior %r raised %r' % (mode, s, ex)
+                            if bad:
+                                break
                     if bad:
                         acc.fail('prior:fit-value', sub, bad)
                     else:
